@@ -24,10 +24,18 @@ FUNCS = ["Generator.get_indexed_symbol", "ForLoop.register_indexed_symbol"]
 
 
 def _atoms(test):
+    """the comparisons that are all FALSE when `test` is false: the test itself, or the operands of a disjunction (recursively).  A comparison
+    under `and` (`for_loop is None and (sl <= 0 or sl > dim)`) or `not` tells nothing about its operands when the whole test fails."""
     out = []
-    for c in ast.walk(test):
-        if isinstance(c, ast.Compare) and len(c.ops) == 1:
-            out.append((norm(c.left), type(c.ops[0]), c.comparators[0]))
+
+    def go(t):
+        if isinstance(t, ast.Compare) and len(t.ops) == 1:
+            out.append((norm(t.left), type(t.ops[0]), t.comparators[0]))
+        elif isinstance(t, ast.BoolOp) and isinstance(t.op, ast.Or):
+            for v in t.values:
+                go(v)
+
+    go(test)
     return out
 
 
@@ -373,6 +381,31 @@ def r23_8(ctx, rep):
         raise MechanismMissing(R, "expected the for-equation and the for-statement push/pop pairs, found %d" % n)
 
 
+@SPEC.rule(
+    "R23.9",
+    "loop subscripts reach the backend as subscripts: every index function that get_indexed_symbol hands to the loop (the nested functions that "
+    "map the loop's index array to what the symbol is subscripted with) returns the array itself or a tuple containing it unchanged next to the "
+    "other, already checked, subscripts — never arithmetic on it (a flat offset `i + c * rows` is inside the matrix for rows that are not)",
+)
+def r23_9(ctx, rep):
+    R = "R23.9"
+    fn = ctx.func(GEN, "Generator.get_indexed_symbol", R)
+    site = GEN + ":Generator.get_indexed_symbol"
+    handed = {c.args[1].id for c in calls(fn) if isinstance(c.func, ast.Attribute) and c.func.attr == "register_indexed_symbol" and len(c.args) >= 2 and isinstance(c.args[1], ast.Name)}
+    defs = [d for d in ast.walk(fn) if isinstance(d, ast.FunctionDef) and d is not fn and d.name in handed]
+    lambdas = [c.args[1] for c in calls(fn) if isinstance(c.func, ast.Attribute) and c.func.attr == "register_indexed_symbol" and len(c.args) >= 2 and isinstance(c.args[1], ast.Lambda)]
+    if len(defs) + len(lambdas) < 2:
+        raise MechanismMissing(R, "fewer than 2 index functions handed to register_indexed_symbol found")
+    for d in defs + lambdas:
+        p = d.args.args[0].arg if d.args.args else None
+        rets = [d.body] if isinstance(d, ast.Lambda) else [r.value for r in ast.walk(d) if isinstance(r, ast.Return) and r.value is not None]
+        for v in rets:
+            elems = v.elts if isinstance(v, ast.Tuple) else [v]
+            bad = [norm(e) for e in elems if not is_name(e, p) and any(is_name(x, p) for x in ast.walk(e))]
+            rep.ob(R, site, "index function (line %d) passes the loop's subscripts on unchanged" % d.lineno, not bad and any(is_name(e, p) for e in elems),
+                   "it returns %s: the subscript array is transformed before the backend sees it, so its own bound check no longer applies to what the model wrote" % (bad or norm(v)))
+
+
 # -- seeded variants ---------------------------------------------------------
 from ._mut import replace_in_func  # noqa: E402
 
@@ -506,3 +539,28 @@ def _m_loop_left(mod):
         return False
 
     return mod if replace_in_func(mod, "Generator.exitForEquation", edit) else None
+
+
+@SPEC.mutant("range check of a constant subscript skipped next to a loop index", GEN, "R23.3", "")
+def _m_check_only_without_loop(mod):
+    def edit(fn):
+        for n in ast.walk(fn):
+            if isinstance(n, ast.If) and norm(n.test).replace(" ", "") in ("sl<=0orsl>dim",):
+                n.test = ast.BoolOp(op=ast.And(), values=[ast.parse("for_loop is None", mode="eval").body, n.test])
+                return True
+        return False
+
+    return mod if replace_in_func(mod, "Generator.get_indexed_symbol", edit) else None
+
+
+@SPEC.mutant("fixed-column loop gather through a flat index", GEN, "R23.9", "passes the loop's subscripts on unchanged")
+def _m_flat_index(mod):
+    def edit(fn):
+        for d in ast.walk(fn):
+            if isinstance(d, ast.FunctionDef) and d.name == "index_function" and isinstance(d.body[0], ast.Return) and isinstance(d.body[0].value, ast.Tuple) \
+                    and isinstance(d.body[0].value.elts[0], ast.Name):
+                d.body[0].value = ast.parse("i + indices[1] * s.size1()", mode="eval").body
+                return True
+        return False
+
+    return mod if replace_in_func(mod, "Generator.get_indexed_symbol", edit) else None
